@@ -159,9 +159,9 @@ class Vec:
     elt  : element type tag (dsl type) used when the vector must be havocked
     ro   : read-only view marker (`.values` of a Series)
     """
-    __slots__ = ("n", "at", "idx", "elt", "ro", "kind", "perm")
+    __slots__ = ("n", "at", "idx", "elt", "ro", "kind", "perm", "nz")
 
-    def __init__(self, n, at, idx=None, elt=None, ro=False, kind="array", perm=None):
+    def __init__(self, n, at, idx=None, elt=None, ro=False, kind="array", perm=None, nz=None):
         self.n = n
         self.at = memo_at(at)
         self.idx = idx
@@ -169,6 +169,7 @@ class Vec:
         self.ro = ro
         self.kind = kind  # 'array' | 'series' | 'list' | 'index'
         self.perm = perm  # for a vector known to be a permutation of 0..n-1: value -> its position (the inverse)
+        self.nz = nz      # for np.nonzero(mask)[0]: (mask element closure, position -> its rank among the True positions, n)
 
     def with_(self, **kw):
         d = dict(n=self.n, at=self.at, idx=self.idx, elt=self.elt, ro=self.ro, kind=self.kind)
